@@ -12,7 +12,9 @@ pub struct TF {
     /// |F(0)|, |F(1)|, |F(2)| (a third node label is used by a few slices only)
     pub n: [usize; 3],
     /// 0 single operation, 1 two-stage composite, 2 spider-only merge, 3 disconnected (discard / create),
-    /// 4 two-stage composite handed over as an un-quotiented lax composite (lax entry points only)
+    /// 4 two-stage composite handed over as an un-quotiented lax composite (lax entry points only),
+    /// 5 single operation whose ports are listed in the reverse order of the interface wires,
+    /// 6 spider-only merge plus one isolated node (a closed "dot"; for an operation of F-type [] -> [] the dot alone)
     pub recipe: u8,
 }
 
@@ -58,6 +60,21 @@ impl TF {
                 labels.dedup();
                 let pos = |l: &u8| labels.iter().position(|m| m == l).unwrap();
                 L::strict(P { nodes: labels.clone(), edges: vec![], s: fa.iter().map(pos).collect(), t: fb.iter().map(pos).collect() })
+            }
+            5 => {
+                let (na, nb) = (fa.len(), fb.len());
+                let nodes: Vec<u8> = fa.iter().chain(fb.iter()).cloned().collect();
+                L::strict(P { nodes, edges: vec![PEdge { label: 100 + x, src: (0..na).rev().collect(), tgt: (na..na + nb).rev().collect() }], s: (0..na).collect(), t: (na..na + nb).collect() })
+            }
+            6 => {
+                let mut labels: Vec<u8> = fa.iter().chain(fb.iter()).cloned().collect();
+                labels.sort();
+                labels.dedup();
+                let pos = |l: &u8| labels.iter().position(|m| m == l).unwrap();
+                let (s, t) = (fa.iter().map(pos).collect(), fb.iter().map(pos).collect());
+                let mut nodes = labels.clone();
+                nodes.push(99);
+                L::strict(P { nodes, edges: vec![], s, t })
             }
             _ => L::strict(P::singleton(120 + x, &fa, &[]).tensor(&P::singleton(130 + x, &[], &fb))),
         }
